@@ -78,6 +78,9 @@ Proof.
   destruct r; cbn [batch_proj_ok]; intros H; apply andb_true_iff in H as [H _]; rewrite H; reflexivity.
 Qed.
 
+Lemma firstn_S_fold {X} j (l : list X) : match l with [] => [] | a :: l0 => a :: firstn j l0 end = firstn (S j) l.
+Proof. destruct l; reflexivity. Qed.
+
 (* ---------- one step, then a sequence ---------- *)
 
 Section Gen.
@@ -129,7 +132,7 @@ Proof.
   - (* iter *)
     injection Hstep as <- <- <-. destruct (sim_iter A m S s c a b l HR) as [n [Hn Hle]].
     exists c. cbn [o_step_gen rclass_eqb andb]. rewrite Hn, <- firstn_map, is_prefix_firstn. cbn [andb].
-    rewrite map_length, firstn_length.
+    rewrite firstn_length, map_length.
     assert (Hmin : (min_count l (length (citems m c a b)) <= Nat.min n (length (citems m c a b)))%nat).
     { pose proof (min_count_le l (length (citems m c a b))). lia. }
     apply Nat.leb_le in Hmin. rewrite Hmin. repeat split; assumption.
@@ -139,17 +142,17 @@ Proof.
     pose proof (min_count_le l (length all)) as Hmc.
     destruct (Nat.leb (Datatypes.S j) (length (firstn n all))) eqn:El; injection Hstep as <- <- <-.
     + apply Nat.leb_le in El. rewrite firstn_length in El.
-      exists c. cbn [o_step_gen rclass_eqb andb]. fold all.
+      exists c. cbn [o_step_gen rclass_eqb andb]. fold all. rewrite !firstn_S_fold.
       rewrite firstn_firstn, <- firstn_map, is_prefix_firstn. cbn [andb].
-      rewrite map_length, firstn_length.
+      rewrite firstn_length, map_length.
       replace (Nat.min (Nat.min (Datatypes.S j) n) (length all)) with (Datatypes.S j) by lia.
       rewrite Nat.eqb_refl. rewrite nth_error_firstn_lt by lia.
       split; [reflexivity|]. split; [exact HR|].
       intros i Hi. apply nth_error_In in Hi. eapply (sim_item A m S); eauto.
     + apply Nat.leb_gt in El. rewrite firstn_length in El.
-      exists c. cbn [o_step_gen rclass_eqb andb]. fold all.
+      exists c. cbn [o_step_gen rclass_eqb andb]. fold all. rewrite !firstn_S_fold.
       rewrite firstn_firstn, <- firstn_map, is_prefix_firstn. cbn [andb].
-      rewrite map_length, firstn_length.
+      rewrite firstn_length, map_length.
       assert (H1 : Nat.leb (min_count l (length all)) (Nat.min (Nat.min (Datatypes.S j) n) (length all)) = true)
         by (apply Nat.leb_le; lia).
       assert (H2 : Nat.leb (Nat.min (Nat.min (Datatypes.S j) n) (length all)) j = true) by (apply Nat.leb_le; lia).
@@ -218,4 +221,79 @@ Proof.
   - intros _. unfold big_check, big_oracle. intros H. apply orb_true_iff in H as [H|H].
     + destruct failing; apply andb_true_iff in H as [H1 H2]; apply rclass_eqb_eq in H1; subst cl; rewrite H2; reflexivity.
     + apply andb_true_iff in H as [H1 H2]. apply rclass_eqb_eq in H1. subst cl. rewrite H2. reflexivity.
+Qed.
+
+(* ---------- the refinement statements ---------- *)
+
+(* "A refines the contract read as m on the sequences `ok` admits": from related states, every operation sequence
+   is accepted by the contract oracle step by step (result classes, put-if-absent payloads, iterator prefixes of
+   sufficient length inside the interval and in order, compare-and-delete), and the final states are related again
+   (in particular: the raw contents are the contract's map). *)
+Definition refines_on (A : adapter) (m : dcmode) (R : a_state A -> cstore -> Prop) (ok : list sop -> Prop) : Prop :=
+  forall fnd s c ops, R s c -> ok ops -> Forall not_panic (snd (a_run A s None ops)) ->
+    exists cf, o_run_gen m fnd c None (combine ops (snd (a_run A s None ops))) = inl cf /\
+               R (fst (a_run A s None ops)) cf.
+
+Definition C11_full_statement (A : adapter) (m : dcmode) (R : a_state A -> cstore -> Prop) : Prop :=
+  refines_on A m R (fun _ => True).
+
+Lemma refines_of_sim A m (S : sim A m) : refines_on A m (sim_R A m S) (Forall (sop_ok S)).
+Proof.
+  intros fnd s c ops HR Hok Hnp. apply (run_sim S fnd ops s c None HR); [|exact Hok|exact Hnp].
+  intros i Hi. discriminate.
+Qed.
+
+Definition seq_nonempty (ops : list sop) : Prop :=
+  Forall (fun o => match o with SBatch l => Forall sbop_nonempty l | _ => True end) ops.
+Definition seq_fresh (ops : list sop) : Prop :=
+  Forall (fun o => match o with SBatch l => no_delcur_after_write l false = true | _ => True end) ops.
+
+Lemma refines_memkv : refines_on memkv ByValue mem_R seq_nonempty.
+Proof. exact (refines_of_sim memkv ByValue sim_memkv). Qed.
+Lemma refines_tikv : refines_on tikv ByValue tikv_R seq_nonempty.
+Proof. exact (refines_of_sim tikv ByValue sim_tikv). Qed.
+Lemma refines_badger : refines_on badger ByVersion badger_R seq_fresh.
+Proof. exact (refines_of_sim badger ByVersion sim_badger). Qed.
+Lemma refines_wrapper A m (S : sim A m) : refines_on (wrapper A) m (sim_R A m S) (Forall (sop_ok S)).
+Proof. exact (refines_of_sim (wrapper A) m (sim_wrapper A m S)). Qed.
+
+(* the three deviations refute the unrestricted statements *)
+Definition k_a : bytes := [97].
+Definition wide_lo : bytes := [0].
+Definition wide_hi : bytes := [255; 255; 255].
+
+Definition f1_ops : list sop := [SBatch [BPutNX k_a [] 0]].
+Definition f2_ops : list sop := [SBatch [BPut k_a [49] 0]; SHold wide_lo wide_hi 0 0; SBatch [BPut k_a [50] 0; BDelCurH]].
+Definition f3_ops : list sop := [SBatch [BPut k_a [49] 0]; SBatch [BPut k_a [] 0]; SHold wide_lo wide_hi 0 0; SDel k_a; SDelCur].
+
+Lemma refuted_by A m (R : a_state A -> cstore -> Prop) s c ops :
+  R s c -> Forall not_panic (snd (a_run A s None ops)) ->
+  (exists code, o_run_gen m (fun _ _ => 0) c None (combine ops (snd (a_run A s None ops))) = inr code) ->
+  ~ C11_full_statement A m R.
+Proof.
+  intros HR Hnp [code Hc] H. destruct (H (fun _ _ => 0) s c ops HR I Hnp) as [cf [Hcf _]]. congruence.
+Qed.
+
+Lemma full_tikv_refuted : ~ C11_full_statement tikv ByValue tikv_R.
+Proof.
+  apply (refuted_by tikv ByValue tikv_R [] (cs_of []) f1_ops).
+  - repeat split; constructor.
+  - vm_compute. repeat constructor.
+  - exists 0. vm_compute. reflexivity.
+Qed.
+
+Lemma full_badger_refuted : ~ C11_full_statement badger ByVersion badger_R.
+Proof.
+  apply (refuted_by badger ByVersion badger_R (mk_bstate [] 0) (cs_of []) f2_ops).
+  - repeat split; constructor.
+  - vm_compute. repeat constructor.
+  - exists 0. vm_compute. reflexivity.
+Qed.
+
+Lemma full_memkv_refuted : ~ C11_full_statement memkv ByValue mem_R.
+Proof.
+  apply (refuted_by memkv ByValue mem_R [] (cs_of []) f3_ops).
+  - repeat split; constructor.
+  - vm_compute. repeat constructor.
+  - exists 0. vm_compute. reflexivity.
 Qed.
